@@ -2,6 +2,7 @@
 """C10 - saved curation state survives any save/reload history."""
 
 import math
+import os
 import sys
 
 import numpy as np
@@ -13,6 +14,8 @@ from ..core import require, must_return, same_array, Violation, Reject
 
 env.import_phylib()
 from phylib.io.model import load_model  # noqa: E402
+
+from .c04 import DIRNAMES  # noqa: E402
 
 ID = 'C10'
 LEVEL = 'exploration'
@@ -78,9 +81,13 @@ class Interp(object):
         self.root = self._cm.__enter__()
         try:
             self.spec = case['init']['spec']
-            self.T = D.build(self.spec, self.root / 'ds')
-            self.m = D.load(self.T, must_return)
+            self.T = D.build(self.spec, self.root / case['init'].get('dirname', 'ds'))
+            self.rel = bool(case['init'].get('rel'))
+            self._cwd = os.getcwd()
+            self.m = self._load('load_model')
         except BaseException:
+            if getattr(self, '_cwd', None):
+                os.chdir(self._cwd)
             self._cm.__exit__(None, None, None)
             raise
         self.live = True
@@ -97,6 +104,19 @@ class Interp(object):
         self._verify()
 
     # -- helpers ----------------------------------------------------------------------------
+    def _load(self, what):
+        if not self.rel:
+            return must_return(what, load_model, self.T.params_path)
+        # the dataset is opened by a relative path; afterwards the process works elsewhere
+        os.chdir(str(self.root))
+        try:
+            m = must_return(what, load_model, os.path.join(self.T.dir.name, 'params.py'))
+        finally:
+            away = self.root / 'elsewhere'
+            away.mkdir(exist_ok=True)
+            os.chdir(str(away))
+        return m
+
     def _mt_close(self, m):
         mt = getattr(getattr(m, 'traces', None), 'reader', None)
         if mt is not None:
@@ -240,7 +260,7 @@ class Interp(object):
     def _reload(self):
         if self.live and self.m is not None:
             self._mt_close(self.m)      # drop the old model without close()
-        self.m = must_return('load_model (reload)', load_model, self.T.params_path)
+        self.m = self._load('load_model (reload)')
         self.live = True
         st_ = self.stats
         st_['reloads'] += 1
@@ -366,6 +386,7 @@ class Interp(object):
                         pass
                 self._mt_close(self.m)
         finally:
+            os.chdir(self._cwd)
             self._cm.__exit__(None, None, None)
 
 
@@ -392,14 +413,16 @@ _blob = (st.lists(_frag, max_size=24).map(b''.join) | st.binary(max_size=40)).ma
 
 
 class Machine(_Base):
-    @initialize(spec=D.dataset_spec(raw=True, features=False, tfeatures=False, max_nc=8))
-    def init(self, spec):
+    @initialize(spec=D.dataset_spec(raw=True, features=False, tfeatures=False, max_nc=8,
+                                     symlinks=True),
+                rel=st.booleans(), dirname=st.sampled_from(DIRNAMES))
+    def init(self, spec, rel, dirname):
         # small chunks so that more than 20 chunks exist and the sub-selection bites
         # (flat/npy readers cut chunks of 600 s: choose the rate so that a chunk is c samples)
         c = max(2, spec['n_raw'] // 30)
         spec['raw']['chunk'] = c
         spec['rate'] = c / 600.0
-        self.start({'spec': spec})
+        self.start({'spec': spec, 'rel': rel, 'dirname': dirname})
 
     def _live(self):
         return self.interp is not None and self.interp.live
@@ -473,4 +496,10 @@ def classify(case, info):
     s = case['init']['spec']
     labels.append('naming:' + s['naming'])
     labels.append('dense' if s['templates']['dense'] else 'sparse')
+    if case['init'].get('rel'):
+        labels.append('opened-by-relative-path-then-chdir')
+    if case['init'].get('dirname', 'ds') != 'ds':
+        labels.append('special-characters-in-directory-name')
+    if s.get('symlinks'):
+        labels.append('symlinked-files')
     return labels, nt
